@@ -262,7 +262,7 @@ def run_one(ck, prog):
         ck.ob("C17.5", "queues-not-public", not pub, detail=f"public queue fields of IoUring: {pub}")
 
 
-def shape_masked_shift(e, prov, field, loader=None, flag=None):
+def shape_masked_shift(e, prov, field, loader=None, flag=None, ctx=None):
     """(X & ring_mask) << shift   (cast to usize allowed); with `flag`, the shift must be decided by that set-up flag (the submission
     entries are doubled by SQE128, the completion entries by CQE32 - independently of each other)"""
     e = strip_casts(e)
@@ -270,7 +270,23 @@ def shape_masked_shift(e, prov, field, loader=None, flag=None):
         return False
     if flag is not None:
         named = {str(z[2]).rsplit("::", 1)[-1] for z in walk_deep(e[3], prov) if z[0] == "const" and z[2] and "IORING_SETUP_" in str(z[2])}
-        if named != {flag}:
+        sh = strip_casts(e[3])
+        if not named and ctx is not None and isinstance(sh, tuple) and sh[0] == "var" and len(sh) > 3:
+            # the branch form: `if flags.contains(FLAG) { 1 } else { 0 }` - each constant is assigned under the matching outcome of the test
+            ok = True
+            for (db, di) in sh[3]:
+                blk = ctx.cfg.block(db)
+                if not isinstance(di, int) or di >= len(blk["stmts"]):
+                    ok = False
+                    break
+                v = fold(prov.rvalue(blk["stmts"][di]["rv"], (db, di)))
+                tests = [f for f in panics.dominating_facts(ctx, db) if f[0] == "truth" and isinstance(f[1], tuple) and f[1][0] == "call" and (f[1][1] or "").endswith("::contains")]
+                flags_tested = {str(z[2]).rsplit("::", 1)[-1]: f[2] for f in tests for z in walk_deep(f[1], prov) if z[0] == "const" and z[2] and "IORING_SETUP_" in str(z[2])}
+                if v not in (0, 1) or flags_tested != {flag: bool(v)}:
+                    ok = False
+            if not ok:
+                return False
+        elif named != {flag}:
             return False
     inner = strip_casts(e[2])
     if not (isinstance(inner, tuple) and inner[0] == "bin" and inner[1] == "BitAnd"):
@@ -355,7 +371,7 @@ def check_slot_capacity(ck, prog, rule):
             a = g.args(bb)
             if mentions(a[0], g.prov, lambda z: z[0] == "field" and z[2] == "entries"):
                 e = strip_casts(a[1])
-                idx_ok = shape_masked_shift(e, g.prov, "tail", flag="IORING_SETUP_SQE128")
+                idx_ok = shape_masked_shift(e, g.prov, "tail", flag="IORING_SETUP_SQE128", ctx=g)
         ck.ob(rule, "sqe-index=(tail&mask)<<shift", idx_ok, fn=g.path, detail="the slot index must be (tail & ring_mask) << shift, the shift decided by IORING_SETUP_SQE128 alone")
 
 
@@ -369,7 +385,7 @@ def check_cqe_index(ck, prog, rule):
     for bb, t in c.cfg.calls(lambda t: (t.get("callee") or "").endswith("::add")):
         a = c.args(bb)
         if mentions(a[0], c.prov, lambda z: z[0] == "field" and z[2] == "entries"):
-            idx_ok = shape_masked_shift(strip_casts(a[1]), c.prov, None, loader="acquire_khead", flag="IORING_SETUP_CQE32")
+            idx_ok = shape_masked_shift(strip_casts(a[1]), c.prov, None, loader="acquire_khead", flag="IORING_SETUP_CQE32", ctx=c)
     ck.ob(rule, "cqe-index=(head&mask)<<shift", idx_ok, fn=c.path, detail="the completion index must be (kernel_head & ring_mask) << shift: masking after the shift reads already-consumed slots on rings with 32-byte completions")
 
 
